@@ -664,9 +664,45 @@ Proof.
   - intros c Hc. rewrite app_nth1 by lia. apply F; auto.
 Qed.
 
+Lemma do_iop_inv mws sub n0 h0 s j a b s' : hinv n0 h0 s -> do_iop mws sub s j a b = Ok s' -> hinv n0 h0 s'.
+Proof.
+  intros (L & D & F). unfold do_iop.
+  destruct ((if sub then rsub else radd) mws _ _) as [r'|e]; simpl; [|discriminate].
+  intros H; inversion H; subst; clear H. unfold hinv; simpl. rewrite app_length; simpl.
+  split; [lia|]. split.
+  - apply Forall_upd; [|simpl; lia].
+    eapply Forall_impl; [|exact D]. intros d (A & B). simpl in *. lia.
+  - intros c Hc. rewrite app_nth1 by lia. apply F; auto.
+Qed.
+
+Lemma do_cab_inv mws n0 h0 s j d sol s' : hinv n0 h0 s -> In d (derived s) ->
+  do_cab mws s j d sol = Ok s' -> hinv n0 h0 s'.
+Proof.
+  intros (L & D & F) Hd. unfold do_cab. destruct sol as [v|]; [|discriminate].
+  destruct (rescale _) as [r'|e]; simpl; [|discriminate].
+  intros H; inversion H; subst; clear H.
+  assert (Hc : (n0 <= hcell d < length (hp s))%nat) by (rewrite Forall_forall in D; apply D; auto).
+  unfold hinv; simpl. rewrite upd_length. split; auto. split; auto.
+  intros c Hlt. rewrite nth_upd_neq by lia. apply F; auto.
+Qed.
+
+Lemma do_setcopy_inv mws n0 h0 b srcs : forall s s', hinv n0 h0 s -> do_setcopy mws s srcs b = Ok s' -> hinv n0 h0 s'.
+Proof.
+  induction srcs as [|src t IH]; intros s s' I; simpl.
+  - intros H; inversion H; subst; auto.
+  - destruct I as (L & D & F). destruct b as [b'|].
+    + destruct (set_basis mws _ b') as [r'|e]; simpl; [|discriminate].
+      apply IH. unfold hinv; simpl. rewrite upd_length, app_length; simpl. split; [lia|]. split.
+      * eapply Forall_impl; [|exact D]. intros d (A & B). simpl in *. lia.
+      * intros c Hc. rewrite nth_upd_neq by lia. rewrite app_nth1 by lia. apply F; auto.
+    + apply IH. unfold hinv; simpl. rewrite app_length; simpl. split; [lia|]. split.
+      * eapply Forall_impl; [|exact D]. intros d (A & B). simpl in *. lia.
+      * intros c Hc. rewrite app_nth1 by lia. apply F; auto.
+Qed.
+
 Lemma hstep_inv mws members n0 h0 s o s' : hinv n0 h0 s -> hstep mws members s o = Ok s' -> hinv n0 h0 s'.
 Proof.
-  intros I. destruct o as [lo k b|k r x|j b|j b|j r x]; simpl.
+  intros I. destruct o as [lo k b|k r x|j b|j b|j r x|j k|j k|j sol|lo n b]; simpl.
   - destruct (nth_error (skipn lo members) k); [|discriminate]. apply do_copy_inv; auto.
   - destruct (nth_error members k); [|discriminate]. apply do_backwards_inv; auto.
   - destruct (nth_error (derived s) j) as [d|] eqn:E; [|discriminate].
@@ -679,6 +715,13 @@ Proof.
     + intros c Hc. rewrite nth_upd_neq by lia. apply F; auto.
   - destruct (nth_error (derived s) j); [|discriminate]. apply do_copy_inv; auto.
   - destruct (nth_error (derived s) j); [|discriminate]. apply do_backwards_inv; auto.
+  - destruct (nth_error (derived s) j) as [a|]; [|discriminate].
+    destruct (nth_error (derived s) k) as [b|]; [|discriminate]. apply do_iop_inv; auto.
+  - destruct (nth_error (derived s) j) as [a|]; [|discriminate].
+    destruct (nth_error (derived s) k) as [b|]; [|discriminate]. apply do_iop_inv; auto.
+  - destruct (nth_error (derived s) j) as [d|] eqn:E; [|discriminate].
+    apply do_cab_inv; auto. apply nth_error_In in E. exact E.
+  - apply do_setcopy_inv; auto.
 Qed.
 
 Lemma hrun_inv mws members n0 h0 ops : forall s, hinv n0 h0 s -> hinv n0 h0 (fst (hrun mws members s ops)).
@@ -951,4 +994,24 @@ Proof.
       * exfalso. apply Nz. unfold remap in Rb. exact (remap_from_none _ _ _ _ Rb i E).
     + assert (E : nth_error bwd i = None) by (apply nth_error_None; lia). rewrite E.
       unfold nthq. rewrite nth_overflow by lia. lra.
+Qed.
+
+
+Lemma nth_upd_same_gen {A} (l : list A) i x d : (i < length l)%nat -> nth i (upd l i x) d = x.
+Proof. revert i; induction l as [|h t IH]; intros [|i] H; simpl in *; try lia; auto. apply IH. lia. Qed.
+
+(* whatever the linear solver returns, correct_atomic_balance ends with _rescale: the corrected reaction
+   has reactant coefficient -1, so it converts exactly X of its reactant (consumed_lemma) *)
+Lemma cab_normalised_lemma mws s j d sol s' : do_cab mws s j d sol = Ok s' ->
+  (hcell d < length (hp s))%nat ->
+  normalised (as_rxn (hp s') d) /\ derived s' = derived s.
+Proof.
+  unfold do_cab. destruct sol as [v|]; [|discriminate].
+  destruct (rescale _) as [r'|e] eqn:R; simpl; [|discriminate].
+  intros H Hc; inversion H; subst; clear H. simpl. split; auto.
+  unfold rescale in R. simpl in R.
+  destruct (qzerob _) eqn:Z; [discriminate|]. inversion R; subst; clear R.
+  unfold normalised, as_rxn, hget. simpl. rewrite nth_upd_same_gen by auto.
+  rewrite nthq_vdivs. apply qzerob_false in Z. unfold hget in Z.
+  set (a := nthq _ (h_ridx d)) in *. field. intros E. apply Z. rewrite E. ring.
 Qed.
